@@ -24,10 +24,8 @@ Variable c : lcfg.
 Definition lstep (s : lstate) (o : lop) : lstate :=
   match o with
   | LFail t =>
-      let attempts := l_count s + 1 in
-      if t - l_last s <=? lc_window c then
-        mkL attempts t (if lc_after c <=? attempts then t + lc_duration c else l_locked s)
-      else mkL 1 t (l_locked s)
+      let attempts := if t - l_last s <=? lc_window c then l_count s + 1 else 1 in
+      mkL attempts t (if lc_after c <=? attempts then t + lc_duration c else l_locked s)
   | LOkBefore t => mkL (l_count s) t (l_locked s)
   | LOkAfter t => mkL 0 t (l_locked s)
   | LManualLock t => mkL (l_count s) (l_last s) (t + lc_duration c)
